@@ -1,5 +1,6 @@
 import Memterm.Dump
 import Memterm.Props.Frame
+import Memterm.Spec.C09
 
 /-
   Driver side: executable comparisons between a model state and a dumped
@@ -7,17 +8,6 @@ import Memterm.Props.Frame
   on dumped states.
 -/
 namespace Memterm
-
-def isHexStr (s : List Nat) : Bool :=
-  s.length ≥ 6 && s.all (fun c => (48 ≤ c && c ≤ 57) || (97 ≤ c && c ≤ 102))
-
-/-- documented colour names (written out, not taken from the regenerated tables): the eight ANSI
-    names, their aixterm `bright` variants, and `default` -/
-def colourNames : List (List Nat) :=
-  let base := ["black", "red", "green", "brown", "blue", "magenta", "cyan", "white"]
-  (("default" :: base ++ base.map ("bright" ++ ·)).map (fun s => s.toList.map Char.toNat))
-
-def colourOk (s : List Nat) : Bool := colourNames.contains s || isHexStr s
 
 def attrColoursOk (a : Attr) : Bool := colourOk a.fg && colourOk a.bg
 
